@@ -74,6 +74,21 @@ CHECKS = {
    text="Generated-input search. All 1066 version triples 0.0.0..1.12.40 are enumerated with operator spellings and placements of unrelated pragmas (thorough: the full product) over a template body with SafeMath calls and require strings of 0/1/31/32/33/64 bytes; the four detectors must report exactly what the triple-comparison model with thresholds 0.8.0 / 0.8.4 says, never both SafeMath detectors, and their activity must be monotone along the sorted versions; random bodies extend the body domain. Exploration, complete over the listed version domain.",
    note="Trusted: the version model (lexicographic triple comparison) and the reference site finders in refmodel/detect.rs.",
    design="DESIGN.md section 5 C09, section 8.5"),
+ "C15": dict(
+   technique="property-based testing over call histories (vec of operations + interpreter) against a single-call baseline; concurrent stress phase",
+   text="Generated-input search over histories: 3-14 library operations (per-file analyses with arbitrary file numbers and repetitions, directory analyses with the file among varying siblings, positions and pattern selections) on a pool of files that share state-variable names and differ in version and SafeMath usage; every (file, pattern) result inside the history must equal the baseline of one isolated call; 16 threads then issue thousands of concurrent calls compared with the sequential baseline. Exploration; the thread schedule is not controlled (stress only).",
+   note="Trusted: the baseline call itself (its correctness is C05-C09's business); OS scheduler for the concurrent phase.",
+   design="DESIGN.md section 5 C15"),
+ "C17": dict(
+   technique="property-based testing: metamorphic relation under token-preserving re-layout (one-token-per-line layout as reference) and string-content blanking",
+   text="Generated-input search. The token sequence of a generated program is laid out one token per line (line = token index), on one line, with CRLF, without final newline, in three random layouts with code-like comments, multi-byte characters and touching tokens, and with all string contents replaced by equal-length x-runs; for all 30 patterns the lines reported under each layout must be exactly the lines of the tokens flagged in the one-token-per-line layout. Exploration.",
+   note="Trusted: solang's lexer for tokenisation (each layout is re-lexed and must give the same tokens), the line model of C02.",
+   design="DESIGN.md section 5 C17"),
+ "C19": dict(
+   technique="property-based testing: metamorphic relation (blank all but one top-level item, newlines kept) with set union as oracle",
+   text="Generated-input search. For generated files with 2-6 top-level items and file-wide unique, unshared state-variable names, and for the 28 detectors other than the two SafeMath ones, the findings of the file must equal the union of the findings of the file with everything but one item (and the pragmas) blanked out. Exploration.",
+   note="Trusted: item extents from the parser's locations; the blanked files are re-parsed (self-check).",
+   design="DESIGN.md section 5 C19"),
 }
 
 NOT_YET = {
